@@ -57,10 +57,18 @@ var schedCfgs = map[string]SchedCfg{
 	"nested": {Name: "nested", Fanout: 8, Entries: []int{1, 2, 3, 4, 5, 6, 8},
 		Ops:   []SOp{{"lookup", 3}, {"lookup", 5}, {"lookup", 6}, {"lookup", 7}, {"lookup", 8}, {"iterate", 0}, {"length", 0}},
 		Warms: [][]int{{}, {2}, {4, 1}}},
+	// the same directory without the count (whose seven nested memo stores make the schedules of two counts alone run
+	// into the tens of millions): every schedule of lookups and iterations can be enumerated
+	"nested-nolen": {Name: "nested-nolen", Fanout: 8, Entries: []int{1, 2, 3, 4, 5, 6, 8},
+		Ops:   []SOp{{"lookup", 3}, {"lookup", 5}, {"lookup", 6}, {"lookup", 7}, {"lookup", 8}, {"iterate", 0}},
+		Warms: [][]int{{}, {2}, {4, 1}}},
 	// a wide HAMT: the same structure at fanout 256 (fewer levels, wider shards)
 	"wide": {Name: "wide", Fanout: 256, Entries: []int{1, 2, 3, 4, 5, 6},
 		Ops:   []SOp{{"lookup", 1}, {"lookup", 3}, {"lookup", 5}, {"lookup", 9}, {"iterate", 0}, {"length", 0}},
 		Warms: [][]int{{}, {3}, {6}}},
+	"wide-nolen": {Name: "wide-nolen", Fanout: 256, Entries: []int{1, 2, 3, 4, 5, 6},
+		Ops:   []SOp{{"lookup", 1}, {"lookup", 3}, {"lookup", 5}, {"lookup", 9}, {"iterate", 0}},
+		Warms: [][]int{{}, {3}, {2, 1}}},
 }
 
 // SchedCase: one behaviour exported by TLC.
